@@ -11,6 +11,8 @@ open Dds Dds.CF32 Dds.ConvFast Dds.F32Mono Dds.F32Thr Dds.Spec
 /-- a finite 32-bit pattern (either sign, zeros and subnormals included) -/
 def FinP (x : Nat) : Prop := x < 4294967296 ∧ x % 2147483648 < 0x7F800000
 
+instance (x : Nat) : Decidable (FinP x) := inferInstanceAs (Decidable (_ ∧ _))
+
 /-- the value of a finite pattern in units of 2^-149 -/
 def ival (x : Nat) : Int :=
   if 2147483648 ≤ x then -((pval (x % 2147483648) : Nat) : Int) else ((pval (x % 2147483648) : Nat) : Int)
@@ -261,6 +263,8 @@ theorem near_of_scaled (t v e ix Z Q P851 D P1000 : Rat) (hD : 0 < D) (hP : 0 < 
     grind
 /-- `|x − y| ≤ e` -/
 def Near (x y e : Rat) : Prop := -e ≤ x - y ∧ x - y ≤ e
+
+instance (x y e : Rat) : Decidable (Near x y e) := inferInstanceAs (Decidable (_ ∧ _))
 
 theorem neg_fin (b : Nat) (hb : FinP b) : FinP (neg b) ∧ ival (neg b) = -ival b := by
   obtain ⟨h1, h2⟩ := hb
